@@ -75,6 +75,9 @@ COLD_CORPUS = [
     (TUPLE_KEYS, {'sort_dict_keys': True}),
     (FSET_KEYS, {'sort_dict_keys': True}),
     (['std', 'chainmap', [[[['str', 'k'], ['int', 1]]], []]], {}),
+    (['list', [['str', 'epsilon zeta eta theta iota kappa lambda mu'], ['float', '0.0'], ['int', 1]]], {'width': 20}),
+    (['list', [['str', 'epsilon zeta'], ['bytes', b'epsilon zeta'.hex()], ['float', '0.0'], ['int', 1]]], {}),
+    (['list', [['set', []], ['sub', 'list', 'plain', ['list', []]], ['fset', []], ['sub', 'dict', 'plain', ['dict', []]]]], {}),
     (['list', [['std', 'chainmap', [[], [[['str', 'k'], ['int', 1]]], [], []]], ['std', 'deque', [['int', 1]], 3]]], {}),
     # a struct sequence whose repr cannot be parsed (D26: printed differently before / after the field names were resolved)
     (['std', 'struct_time_x', [['opaque', 1]] + [['int', j] for j in range(1, 9)]], {}),
@@ -150,6 +153,24 @@ def fixed_cases():
                    [['flaky', 0], {}],
                    [['list', [['flaky', 1]]], {'sort_dict_keys': True, 'depth': 2}]]
     yield {'items': flaky_items, 'order': [0, 1, 2, 3, 4, 2000, 0, 2001, 1, 2, 2003, 3, 2004, 4, 0, 1000, 1001, 2002, 2], 'junk': [1, 5]}
+    # values that are equal but differently spelled (a str subclass comparing case-insensitively, 1 / 1.0 / True, 0.0 / -0.0)
+    up, low = 'EPSILON ZETA ETA THETA IOTA KAPPA LAMBDA MU', 'epsilon zeta eta theta iota kappa lambda mu'
+    twins = [[['list', [['sub', 'str', 'ci', ['str', up]]]], {'width': 20}], [['list', [['str', low]]], {'width': 20}],
+             [['list', [['sub', 'str', 'ci', ['str', low]]]], {'width': 20}], [['list', [['sub', 'bytes', 'ci', ['bytes', up.encode().hex()]]]], {'width': 24}],
+             [['list', [['bytes', low.encode().hex()]]], {'width': 24}],
+             [['list', [['int', 1]]], {}], [['list', [['float', '1.0']]], {}], [['list', [['bool', True]]], {}], [['list', [['float', '-0.0']]], {}], [['list', [['float', '0.0']]], {}], [['list', [['int', 0]]], {}]]
+    twins += [[r, {}] for r, c in twins[:5]] + [[['sub', 'str', 'ci', ['str', 'Mixed Case']], {}], [['str', 'mixed case'], {}], [['str', 'MIXED CASE'], {}],
+                                               [['dict', [[['sub', 'str', 'ci', ['str', 'Key']], ['int', 1]]]], {}], [['dict', [[['str', 'key'], ['int', 1]]]], {}]]
+    m = len(twins)
+    yield {'items': twins, 'order': list(range(m)) + list(range(m - 1, -1, -1)) + [1000 + i for i in range(m)], 'junk': [3]}
+    # empty containers and empty subclass instances at a depth cut, then without a limit (and the other way round)
+    empties = [['set', []], ['fset', []], ['sub', 'list', 'plain', ['list', []]], ['sub', 'set', 'plain', ['set', []]], ['sub', 'dict', 'repr', ['dict', []]],
+               ['sub', 'tuple', 'plain', ['tuple', []]], ['list', []], ['dict', []]]
+    items = []
+    for e in empties:
+        items += [[['list', [e]], {'depth': 1}], [e, {}], [['list', [e]], {}], [e, {'depth': 0}]]
+    n = len(items)
+    yield {'items': items, 'order': list(range(n)) + list(range(n - 1, -1, -1)) + [i for i in range(n) if i % 4 == 1] + [1000 + i for i in range(n)], 'junk': [2]}
     # D26: a struct sequence whose repr cannot be parsed prints the same before and after the field names of its class were resolved
     weird = ['std', 'struct_time_x', [['opaque', 1]] + [['int', j] for j in range(1, 9)]]
     yield {'items': [[weird, {}], [['std', 'struct_time', [2020, 1, 2, 3, 4, 5, 3, 2, 0]], {}], [['list', [weird, ['std', 'struct_time', [2021, 1, 2, 3, 4, 5, 3, 2, 0]]]], {}]],
@@ -337,6 +358,9 @@ INTERFERERS = [
     ('ok', ['tcmt', 'a\n  \nb', ['list', [['int', 1]]]], {}),
     ('ok', ['dict', [[['cmt', 'k\n \n', ['int', 1]], ['int', 2]]]], {}),
     ('ok', CLASHING_TUPLE_KEYS, {'sort_dict_keys': True}),
+    ('ok', ['list', [['sub', 'str', 'ci', ['str', 'EPSILON ZETA ETA THETA IOTA KAPPA LAMBDA MU']], ['float', '-0.0'], ['bool', True]]], {'width': 20}),
+    ('ok', ['list', [['sub', 'str', 'ci', ['str', 'EPSILON ZETA']], ['sub', 'bytes', 'ci', ['bytes', b'EPSILON ZETA'.hex()]], ['float', '-0.0'], ['bool', True]]], {}),
+    ('ok', ['list', [['set', []], ['sub', 'list', 'plain', ['list', []]], ['fset', []], ['sub', 'dict', 'plain', ['dict', []]]]], {'depth': 1}),
     ('ok', MIXED_KEYS, {'sort_dict_keys': True}),
 ]
 
